@@ -100,12 +100,15 @@ def shard_glob_random(seed, idx, n):
 PATHS = ["foo", "bar", "baz.py", "src/a.py", "src/b.py", "src/sub/c.py", "dst/a.py", "dst/b.py",
          "build/out", "a b", "ünï/ç", "x[1]", "src/foo", "dst/foo", "sub/dir/foo",
          # look-alikes: start with the characters of a prefix without lying below it
-         "srcfoo", "srca.py", "dstfoo", "sub/dirfoo", "buildout"]
+         "srcfoo", "srca.py", "dstfoo", "sub/dirfoo", "buildout",
+         # names that spell a rule word in another case: patterns, prefixes and step names are data, only the
+         # keywords are case insensitive
+         "Products", "Materials", "From", "Products/a.py", "In/foo", "Create"]
 ODD_PATHS = ["src//q", "src\\w", "/abs"]
 HASHES = ["aa11", "bb22", "cc33"]
 PATTERNS = ["*", "foo", "src/*", "*.py", "[sd]*", "?oo", "nomatch", "src/a.py", "*/a.py", "b*",
-            "*[!y]", "sub/*/foo", "dst/*", "a b", "x[[]1]", "ünï/*", "{x}"]
-PREFIXES = ["src", "src/", "dst", "dst/", "sub/dir", "build", "", "nope"]
+            "*[!y]", "sub/*/foo", "dst/*", "a b", "x[[]1]", "ünï/*", "{x}", "Products", "Materials", "From", "Create", "With"]
+PREFIXES = ["src", "src/", "dst", "dst/", "sub/dir", "build", "", "nope", "Products", "In"]
 GENERIC = ["CREATE", "DELETE", "MODIFY", "ALLOW", "DISALLOW", "REQUIRE"]
 
 
@@ -191,6 +194,8 @@ def gen_rule(rng, names, present=(), last=False):
 def gen_world(rng):
     odd = rng.random() < 0.08
     names = ["item", "s1", "s2"][: rng.randrange(1, 4)]
+    if rng.random() < 0.15:
+        names = ["item"] + [x for x in names[1:2] and ["From"]] + [x for x in names[2:3] and ["Products"]]
     links = []
     base = None
     for n in names:
